@@ -621,6 +621,14 @@ fn build_source(cx: &Ctxt, kit: &Kit, enc: Option<&CKKSEncoder>, lv: &[Lv], mode
     }
     let junk = fresh[0].clone();
 
+    // the destination handed to the destination-argument forms: one of several buffers that already hold OTHER valid ciphertexts
+    // (flipped representation, size 3 / 5, next level, last level) or a fresh first-level one, chosen by the case
+    let junk = {
+        let pool = crate::he::dirty_destinations(&kit);
+        let k = (h64(&serde_json::to_string(c).unwrap_or_default()) % (pool.len() as u64 + 1)) as usize;
+        if k < pool.len() { pool[k].clone() } else { junk }
+    };
+
     let down = |ct: &Ciphertext, nz: &Nz, from: usize, to: usize| -> Result<(Ciphertext, Nz), CaseOut> {
         let mut ct = ct.clone();
         let mut nz = *nz;
@@ -1488,6 +1496,13 @@ fn wide_sources(w: &WideRun, cx: &Ctxt, model: &Model, srcs: &[usize]) -> Result
                 nzs.push(model.fresh(&lv[s], scale, zmax(m)));
             }
             let junk = cts[0].clone();
+            let junk = if n <= 64 {
+                let pool = crate::he::dirty_destinations(kit);
+                let k = (h64(&(serde_json::to_string(c).unwrap_or_default(), s as u64)) % (pool.len() as u64 + 1)) as usize;
+                if k < pool.len() { pool[k].clone() } else { junk }
+            } else {
+                junk
+            };
             let (ct, nz) = mul_all(&cts, &nzs, s)?;
             out[s] = Some(Source { ct, nz, junk, exact: vec![], slots: prod.clone() });
         }
@@ -1506,6 +1521,13 @@ fn wide_sources(w: &WideRun, cx: &Ctxt, model: &Model, srcs: &[usize]) -> Result
             nzs.push(model.fresh(&lv[0], 1.0, 0.0));
         }
         let junk = cts[0].clone();
+        let junk = if n <= 64 {
+        let pool = crate::he::dirty_destinations(kit);
+        let k = (h64(&(serde_json::to_string(c).unwrap_or_default(), 0u64)) % (pool.len() as u64 + 1)) as usize;
+        if k < pool.len() { pool[k].clone() } else { junk }
+        } else {
+        junk
+        };
         let (mut ct, mut nz) = mul_all(&cts, &nzs, 0)?;
         for s in 0..=last_needed {
             if s > 0 {
